@@ -376,7 +376,7 @@ def gen_loaded(S, r, name, kind, P, n, stats):
             parent = bid
         else:
             parent = r.choice(list(T.blocks))
-        S.emit("probe", name, bid, time + r.range(0, 3 * unit))
+        S.emit("probe", name, bid, min(time + r.range(0, 3 * unit), (1 << 32) - 1))
         if kind == "vbk":
             k1, k2 = T.keystones(bid, r.choice([0, 0, 0, 1, 2, 3, 4, 5, 6]))
             S.emit("ks", name, bid, k1, k2)
